@@ -1,6 +1,7 @@
 """C09 - TTL expiry fires exactly once, on time, never early; a refresh postpones it."""
 from .. import scen, stackprop
-from .c05 import static_discovery
+from .c05 import static_discovery, directed_renewal as renewal_discovery
+from .c06 import directed_renewal as renewal_server
 
 CODES = {1: "an entry was reported expired twice / out of order (a stale timer or a deferred notification overtook a refresh)", 2: "expiry history differs from the specification (not exactly once / not on time / early / stale timer / infinite TTL expired)", 98: "checker could not decode"}
 
@@ -22,8 +23,8 @@ def run(ctx):
     n = 200 if quick else 8000
     scs = stackprop.corpus_scenarios("C09")
     for k in range(n):
-        scs.append(static_discovery(r))
-        scs.append(scen.server_scenario(r))
+        scs.append(static_discovery(r) if k % 8 else renewal_discovery(r))
+        scs.append(scen.server_scenario(r) if k % 8 else renewal_server(r))
     if not quick:
         # infinite TTL far beyond 0xFFFFFF seconds
         for k in range(20):
